@@ -36,6 +36,8 @@ class StmtMixin:
             return
         if isinstance(tgt, ast.Attribute):
             o = self.ev(tgt.value, st)
+            if isinstance(o, T) and o.sort == ("Opt", REF):
+                o = unopt(o)
             if tgt.attr in self.m.fields and isinstance(o, T) and o.sort == REF:
                 h = self.field(st, tgt.attr)
                 v = self.coerce(val, self.m.fields[tgt.attr], "store ." + tgt.attr)
